@@ -450,6 +450,10 @@ pub fn minimise(v: Violation) -> Violation {
 
 // ------------------------------------------------------------------------------------ check
 
+pub fn digest(n: u64) {
+    digest_runs("C07", n, |i, seed, c| run_scenario(i, seed, c));
+}
+
 pub fn check(tier: Tier) -> i32 {
     let n_scen = scaled(match tier {
         Tier::Quick => 3_000,
@@ -537,8 +541,7 @@ fn run_scenario(i: u64, seed: u64, c: &mut Counters) -> Vec<Violation> {
         c.inc("executions");
         c.inc(&format!("sched_{}", sched_name(&spec.kind)));
         c.inc(&format!("executions_{family}"));
-        c.add("decisions", info.sched.decisions);
-        c.add("multi_decisions", info.sched.multi_decisions);
+        c.add("decisions", info.sched.multi_decisions);
         c.add("context_switches", info.sched.context_switches);
         c.add("f3_early_wakes", info.sched.early_wakes);
         c.add("f4_stalled_decisions", info.sched.stalled_decisions);
@@ -555,7 +558,6 @@ fn run_scenario(i: u64, seed: u64, c: &mut Counters) -> Vec<Violation> {
         c.add("stm_parks", info.stm.park_calls);
         c.add("tx_committed", info.committed as u64);
         c.add("tx_total", info.n_tx as u64);
-        c.max("max_build_tries", u64::from(info.build_tries));
         c.seen("schedules", info.sched.hash ^ seed);
         if info.stm.validation_failures > 0 || info.stm.write_commits >= 2 {
             c.seen("commit_interleavings", info.stm.signature ^ crate::prng::mix64(seed));
